@@ -83,7 +83,7 @@ theorem createHeader_declares {c : HdrCfg} {info : Extracted} {header h : Text}
   by_cases he : header = []
   · subst he
     have hok' : createNewHeader c info = .ok h := by
-      unfold createHeader at hok; simpa using hok
+      unfold createHeader at hok; simpa [hmerge] using hok
     have hg := (createNewHeader_ok hok').2
     unfold guardOk at hg
     simp only [Bool.and_eq_true] at hg
